@@ -370,6 +370,9 @@ Third:
 			}
 		}
 	case '\n':
+		if l.heredoc.exists() && !l.scanHeredoc() {
+			return nil
+		}
 		l.emit('\n')
 		if !l.linebreak() {
 			return nil
@@ -396,6 +399,9 @@ In:
 		case WORD:
 			l.emit(WORD)
 		case ';', '\n':
+			if tok == '\n' && l.heredoc.exists() && !l.scanHeredoc() {
+				return nil
+			}
 			l.emit(tok)
 			if !l.linebreak() {
 				return nil
